@@ -374,14 +374,29 @@ func (e *cueEnc) cv(v cue.Value, depth int) string {
 		e.used["reference"]++
 		root, p := v.ReferencePath()
 		sels := p.Selectors()
-		name := e.selectorLabel(sels[len(sels)-1])
-		pkg := e.refPkg(v)
-		out = append(out, "(ref "+virQuote(refPath)+" "+virQuote(name)+" "+virQuote(pkg)+")")
-		if pkg == e.pkg {
-			if len(sels) != 1 || !root.LookupPath(p).Exists() {
-				e.no("reference-not-to-a-top-level-field")
+		// the guard at the top of declareReference (fix 0643960): only regular fields and definitions can be named
+		bad := false
+		for _, sel := range sels {
+			if sel.Type().ConstraintType() == cue.PatternConstraint {
+				continue
 			}
-			e.refs[refPath] = true
+			if lt := sel.LabelType(); lt != cue.StringLabel && lt != cue.DefinitionLabel {
+				bad = true
+			}
+		}
+		if bad {
+			e.used["reference-to-hidden-or-local"]++
+			out = append(out, "(ref "+virQuote(refPath)+" \"\" \"\" true)")
+		} else {
+			name := e.selectorLabel(sels[len(sels)-1])
+			pkg := e.refPkg(v)
+			out = append(out, "(ref "+virQuote(refPath)+" "+virQuote(name)+" "+virQuote(pkg)+" false)")
+			if pkg == e.pkg {
+				if len(sels) != 1 || !root.LookupPath(p).Exists() {
+					e.no("reference-not-to-a-top-level-field")
+				}
+				e.refs[refPath] = true
+			}
 		}
 	}
 	// Default()
@@ -779,6 +794,8 @@ plain: {x: string}
 	// witness of C01_cue_parser_sound_counterexample_required_constant: CUE fills in the absent constant, the IR says required
 	{"cuepinconst", `#R: {kind: "fixed"}`, "R", []string{`{}`, `{"kind":"fixed"}`, `{"kind":"other"}`}},
 	{"cuepinerr0", `#R: {nb?: number & <7.25}`, "R", nil},
+	// reference to a hidden field: reported by the guard at the top of declareReference (fix 0643960; it panicked before)
+	{"cuepinerrhidden", "_h: string\n#R: {a: _h}", "R", nil},
 	{"cuepinerr1", `#R: {l: [string, string]}`, "R", nil},
 	{"cuepinerr2", `#R: {e: 1 | 2}`, "R", nil},
 	{"cuepinempty", ``, "", nil},
